@@ -152,6 +152,9 @@ func run(headers map[string]string, accept string, f func(c *rux.Context) error)
 	var res result
 	r := rux.New()
 	do := func(c *rux.Context) {
+		// logging / metrics code has looked at the context first (read-only getters)
+		_, _, _ = c.Length(), c.StatusCode(), c.IsAborted()
+		_, _, _ = c.RawWriter(), c.AcceptedTypes(), c.ContentType()
 		for k, v := range headers {
 			c.SetHeader(k, v)
 		}
